@@ -21,10 +21,12 @@ For the machine-integer back-end `solve`/`inverse` may return `None` on systems 
 consistent over ℚ (the property only demands completeness "over a field").
 
 Machine integers and overflow (evaluated in Driver/C18.lean with the overflow-checked
-model): when an intermediate of the `i64` elimination leaves `[-2^63, 2^63)` and the exact
-answer does not fit an `i64` either, the case is outside the property (DESIGN §5.6); when
-the exact answer does fit and the implementation panics or answers something else, the
-verdict is `machine-integer-overflow` (checked before all other clauses).
+model `i64Backend PRC.chk`, which by `C18.i64_checked_refines_exact` differs from the exact
+integer model only by panicking): when the overflow-checked model panics — an intermediate
+of the `i64` computation leaves `[-2^63, 2^63)` — and the exact answer does not fit an `i64`
+either, the case is outside the property (DESIGN §5.6); when the checked model panics
+although the exact answer fits, and the implementation panics or answers anything but the
+exact answer, the verdict is `machine-integer-overflow` (checked before all other clauses).
 -/
 namespace DSymVerif.SpecC18
 
